@@ -311,6 +311,18 @@ type chanState struct {
 // Current is the run hooks are dispatched to.
 var current atomic.Pointer[Sim]
 
+// flags are the woven packages' VerifOn variables, raised while a run is on.
+var flags []*bool
+
+// RegisterFlag registers a woven package's VerifOn variable.
+func RegisterFlag(f *bool) { flags = append(flags, f) }
+
+func setFlags(on bool) {
+	for _, f := range flags {
+		*f = on
+	}
+}
+
 // New prepares a run.
 func New(cfg Config) *Sim {
 	if cfg.MaxSteps == 0 {
@@ -455,6 +467,8 @@ func (s *Sim) Run(t *testing.T) {
 		panic("simrt: concurrent runs in one process")
 	}
 	defer current.Store(nil)
+	setFlags(true)
+	defer setFlags(false)
 	func() {
 		defer func() {
 			if r := recover(); r != nil {
